@@ -18,10 +18,16 @@ pub const LIMIT: u32 = 1024;
 pub fn par_map<T: Sync, R: Send>(items: &[T], threads: usize, f: impl Fn(usize, &T) -> R + Sync) -> Vec<R> {
     let idx = AtomicUsize::new(0);
     let out: Mutex<Vec<(usize, R)>> = Mutex::new(Vec::with_capacity(items.len()));
+    // the caller only waits here: the workers are the ones the watchdog has to look at
+    let (desc, watched) = crate::watchdog::current();
+    crate::watchdog::idle();
     std::thread::scope(|s| {
         for _ in 0..threads.max(1) {
             s.spawn(|| {
                 crate::sut::set_quiet(true);
+                if watched {
+                    crate::watchdog::working_on(desc.clone());
+                }
                 let mut local = vec![];
                 loop {
                     let i = idx.fetch_add(1, Ordering::Relaxed);
@@ -36,6 +42,9 @@ pub fn par_map<T: Sync, R: Send>(items: &[T], threads: usize, f: impl Fn(usize, 
             });
         }
     });
+    if watched {
+        crate::watchdog::working_on(desc);
+    }
     let mut v = out.into_inner().unwrap();
     v.sort_by_key(|x| x.0);
     v.into_iter().map(|x| x.1).collect()
